@@ -187,7 +187,6 @@ impl CWorld {
         let mem = Memvid::create(&path).expect("create");
         CWorld { _dir: dir, path, mem: Some(mem), level: 3, ts: 1_700_000_000 }
     }
-    fn base(&self) -> u64 { let st = verif_hooks::verif_state(self.mem.as_ref().unwrap()); st.hdr_wal_offset + st.hdr_wal_size }
     fn header_footer_rel(&self) -> u64 {
         let mut buf = [0u8; 4096];
         let ok = std::fs::File::open(&self.path).and_then(|mut f| f.read_exact(&mut buf)).is_ok();
@@ -486,16 +485,16 @@ fn corpus_a() -> Vec<(String, Vec<COp>)> {
     ];
     // every payload kind, through the plain options and through the library defaults, across commit and reopen
     let kinds: Vec<Pay> = vec![
-        spec(Empty, 0, 10), spec(Bin, 1, 11), spec(Bin, 16, 12), spec(Zero, 700, 13), spec(Rand, 1500, 14), spec(Rand, 70_000, 15),
+        spec(Empty, 0, 10), spec(Bin, 1, 11), spec(Bin, 16, 12), spec(Zero, 700, 13), spec(Rand, 1500, 14), spec(Zero, 70_000, 15),
         Pay::Repeat { unit: "all work and no play ".into(), times: 60 }, Pay::Repeat { unit: "compress me. ".into(), times: 400 },
         spec(Ascii, 2399, 16), spec(Ascii, 2400, 17), spec(Ascii, 2401, 18), spec(Utf8, 2399, 19), spec(Utf8, 2400, 20), spec(Utf8, 5000, 21),
         spec(Table, 1500, 22), spec(Table, 4000, 23), Pay::Ctl { len: 12, seed: 24 }, Pay::HighBin { len: 300, seed: 25 },
     ];
-    for (k, chunk) in kinds.chunks(3).enumerate() {
+    for (k, chunk) in kinds.chunks(9).enumerate() {
         let mut ops = vec![];
         for p in chunk { ops.push(put(CPut::plain(p.clone()))); }
         ops.push(COp::Commit);
-        for p in chunk { ops.push(put(CPut::new(p.clone()))); }
+        for p in chunk { if p.bytes().len() < 10_000 { ops.push(put(CPut::new(p.clone()))); } }
         ops.push(COp::Reopen);
         ops.push(put(CPut::plain(spec(Ascii, 30, 99))));
         ops.push(COp::Crash);
@@ -596,6 +595,13 @@ fn record_a(sum: &mut Summary, known: &[String], drv: &mut Option<Driver>, label
     let canon = out.trace.join(";");
     sum.case(&canon, out.puts >= 1 && out.commits >= 1, || json!({"label": label, "part": "content", "ops": ops.len(), "puts": out.puts, "trace_tail": out.trace.iter().rev().take(2).collect::<Vec<_>>()}));
     if out.oracle.is_none() && out.disagree.is_none() { return; }
+    if let Some((sig, what, true)) = &out.oracle {
+        if out.disagree.is_none() && known.iter().any(|k| k == sig) {
+            // a recorded finding that the model predicts: classified as it is, not minimised again
+            sum.known_finding(sig, what, json!({"kind": "content", "label": label, "ops": serde_json::to_value(ops).unwrap()}));
+            return;
+        }
+    }
     // shrink (same failure class)
     let want: Option<String> = out.oracle.as_ref().map(|o| o.0.clone());
     let t0 = std::time::Instant::now();
@@ -677,6 +683,7 @@ fn main() {
         if input["kind"] == "history" {
             let ops = hist::ops_from_json(&input["ops"]);
             let mut oracle = |v: &mut StepView| history_oracle(v);
+            if !args.extra.get("histmodel").map(|s| s == "1").unwrap_or(false) { drv = None; }
             let out = hist::run_history(Source::Fixed(&ops), drv.as_mut(), &mut oracle, true);
             if let Some((sig, what, _, _)) = &out.oracle { println!("ORACLE {sig}: {what}"); }
             if let Some((w, m, i)) = &out.disagree { println!("DISAGREE {w}\n  model: {}\n  impl : {}", m.chars().take(600).collect::<String>(), i.chars().take(600).collect::<String>()); }
@@ -694,31 +701,43 @@ fn main() {
     }
 
     let max_fail: usize = args.extra.get("maxfail").and_then(|s| s.parse().ok()).unwrap_or(3);
-    let n_a: usize = args.extra.get("ncontent").and_then(|s| s.parse().ok()).unwrap_or(if args.thorough { 600 } else { 40 });
-    let n_b: usize = args.extra.get("nshort").and_then(|s| s.parse().ok()).unwrap_or(if args.thorough { 120 } else { 6 });
-    let n_long: usize = args.extra.get("nlong").and_then(|s| s.parse().ok()).unwrap_or(if args.thorough { 6 } else { 1 });
+    let n_a: usize = args.extra.get("ncontent").and_then(|s| s.parse().ok()).unwrap_or(if args.thorough { 150 } else { 6 });
+    let n_b: usize = args.extra.get("nshort").and_then(|s| s.parse().ok()).unwrap_or(if args.thorough { 30 } else { 2 });
+    let n_long: usize = args.extra.get("nlong").and_then(|s| s.parse().ok()).unwrap_or(if args.thorough { 2 } else { 0 });
     // Part A
+    let timing = args.extra.contains_key("timing");
     for (label, ops) in corpus_a() {
+        let t0 = std::time::Instant::now();
         let out = run_case(&ops, &mut drv, false);
+        let t1 = t0.elapsed().as_secs_f32();
         sum.branch("corpus");
         record_a(&mut sum, &known, &mut drv, &label, &ops, out);
+        if timing { eprintln!("[t] {label}: run {t1:.1}s total {:.1}s", t0.elapsed().as_secs_f32()); }
     }
     let mut rng = Rng::new(args.seed);
     for k in 0..n_a {
         if sum.oracle_violations.len() + sum.disagreements.len() >= max_fail { break; }
         let mut r = rng.fork();
         let ops = gen_case(&mut r);
+        let t0 = std::time::Instant::now();
         let out = run_case(&ops, &mut drv, false);
+        let t1 = t0.elapsed().as_secs_f32();
         record_a(&mut sum, &known, &mut drv, &format!("content-{k}"), &ops, out);
+        if timing { eprintln!("[t] content-{k} ({} ops): run {t1:.1}s total {:.1}s", ops.len(), t0.elapsed().as_secs_f32()); }
     }
-    // Part B
+    // Part B: the Core model's own correspondence is the obligation of C01 / C06; here the shared runner
+    // drives the implementation for the content oracle (`--histmodel 1` adds the model comparison)
+    let mut hdrv: Option<Driver> = if args.extra.get("histmodel").map(|s| s == "1").unwrap_or(false) { drv.take() } else { None };
     let mut prof = hist::GenProfile::standard(args.thorough);
+    if !args.thorough { prof.short_len = (10, 30); }
     prof.w_put = 50; prof.w_update = 14; prof.w_vacuum = 3; prof.w_reopen = 6; prof.w_crash = 4; prof.emb_percent = 10;
     for (label, ops) in corpus_b() {
         if sum.oracle_violations.len() + sum.disagreements.len() >= max_fail { break; }
         let mut oracle = |v: &mut StepView| history_oracle(v);
-        let out = hist::run_history(Source::Fixed(&ops), drv.as_mut(), &mut oracle, false);
-        record_b(&mut sum, &known, &mut drv, &label, out);
+        let t0 = std::time::Instant::now();
+        let out = hist::run_history(Source::Fixed(&ops), hdrv.as_mut(), &mut oracle, false);
+        record_b(&mut sum, &known, &mut hdrv, &label, out);
+        if timing { eprintln!("[t] hist {label}: {:.1}s", t0.elapsed().as_secs_f32()); }
     }
     for k in 0..(n_b + n_long) {
         if sum.oracle_violations.len() + sum.disagreements.len() >= max_fail { break; }
@@ -728,9 +747,11 @@ fn main() {
         let mut p = prof.clone();
         if long { p.w_put = 70; p.w_update = 8; p.w_delete = 8; p.w_commit = 2; p.w_reopen = 2; p.w_crash = 2; p.w_vacuum = 1; p.w_doctor = 0; p.w_skip = 1; p.w_finalize = 1; p.w_ticket = 0; p.w_batch = 2; p.w_readonly = 0; }
         let mut oracle = |v: &mut StepView| history_oracle(v);
-        let out = hist::run_history(Source::Gen { rng: &mut r, prof: &p, len, long }, drv.as_mut(), &mut oracle, false);
-        record_b(&mut sum, &known, &mut drv, &format!("{}-{k}", if long { "long" } else { "short" }), out);
+        let t0 = std::time::Instant::now();
+        let out = hist::run_history(Source::Gen { rng: &mut r, prof: &p, len, long }, hdrv.as_mut(), &mut oracle, false);
+        record_b(&mut sum, &known, &mut hdrv, &format!("{}-{k}", if long { "long" } else { "short" }), out);
+        if timing { eprintln!("[t] hist {k} ({len} ops): {:.1}s", t0.elapsed().as_secs_f32()); }
     }
-    sum.model_requests = drv.as_ref().map(|d| d.requests).unwrap_or(0);
+    sum.model_requests = hdrv.as_ref().or(drv.as_ref()).map(|d| d.requests).unwrap_or(0);
     sum.finish(&args);
 }
